@@ -89,17 +89,18 @@ Definition too_many_digits (z:Z) : bool :=
   let a := Z.abs z in
   if (Z.log2 a <? 14000)%Z then false else (10 ^ 4300 <=? a)%Z.
 
-(* "%d" % x *)
-Definition fmt_d (n:num) : res str :=
+(* "%d" % x : the integer that is printed *)
+Definition fmt_d_int (n:num) : res Z :=
   match n with
-  | NInt z => if too_many_digits z then Crash (s_ "ValueError") else Ok (str_of_Z z)
-  | NBool b => Ok (str_of_Z (b2z b))
+  | NInt z => if too_many_digits z then Crash (s_ "ValueError") else Ok z
+  | NBool b => Ok (b2z b)
   | NFlt m e => let z := flt_trunc m e in
-                if too_many_digits z then Crash (s_ "ValueError") else Ok (str_of_Z z)
-  | NNegZero => Ok (str_of_Z 0)
+                if too_many_digits z then Crash (s_ "ValueError") else Ok z
+  | NNegZero => Ok 0%Z
   | NInf _ => Crash (s_ "OverflowError")
   | NNaN => Crash (s_ "ValueError")
   end.
+Definition fmt_d (n:num) : res str := do z <- fmt_d_int n; Ok (str_of_Z z).
 
 (* as a float: float(x) for ints and bools, identity on floats *)
 Definition as_float (n:num) : res num :=
@@ -139,17 +140,21 @@ Definition int_space (c:ascii) : bool :=
   (((9 <=? n) && (n <=? 13)) || (n =? 32) || (n =? 133) || (n =? 160))%nat.
 Fixpoint skip_int_space (s:str) : str :=
   match s with c :: r => if int_space c then skip_int_space r else s | [] => [] end.
-Fixpoint int_digits (s:str) (acc cnt:Z) (after_us:bool) : option (Z * Z * str) :=
+(* the digits (most significant last in [acc]) and the rest; None on a misplaced underscore *)
+Fixpoint int_scan (s:str) (acc:list Z) (after_us:bool) : option (list Z * str) :=
   match s with
   | c :: r =>
       match digit_of c with
-      | Some d => int_digits r (acc * 10 + d)%Z (cnt + 1)%Z false
+      | Some d => int_scan r (d :: acc) false
       | None =>
-          if Ascii.eqb c "_" then (if after_us then None else int_digits r acc cnt true)
-          else if after_us then None else Some (acc, cnt, s)
+          if Ascii.eqb c "_" then (if after_us then None else int_scan r acc true)
+          else if after_us then None else Some (acc, s)
       end
-  | [] => if after_us then None else Some (acc, cnt, [])
+  | [] => if after_us then None else Some (acc, [])
   end.
+(* value of a digit list, least significant first *)
+Fixpoint digits_value (l:list Z) : Z :=
+  match l with [] => 0%Z | d :: r => (d + 10 * digits_value r)%Z end.
 Definition py_int_of_str (s:str) : option Z :=
   let s1 := skip_int_space s in
   let '(neg, s2) :=
@@ -162,10 +167,11 @@ Definition py_int_of_str (s:str) : option Z :=
       match digit_of c with
       | None => None
       | Some _ =>
-          match int_digits s2 0 0 false with
-          | Some (v, cnt, rest) =>
+          match int_scan s2 [] false with
+          | Some (ds, rest) =>
               match skip_int_space rest with
-              | [] => if (4300 <? cnt)%Z then None else Some (if neg then (- v)%Z else v)
+              | [] => if (4300 <? Z.of_nat (length ds))%Z then None
+                      else let v := digits_value ds in Some (if neg then (- v)%Z else v)
               | _ => None
               end
           | None => None
@@ -301,7 +307,7 @@ Definition truthy (v:pyv) : bool :=
 
 (* whether _value_as_str(x) returns (its text is irrelevant inside an error message) *)
 Definition value_fmt_ok (isint:bool) (n:num) : res unit :=
-  if isint then (do _ <- fmt_d n; Ok tt) else (do _ <- as_float n; Ok tt).
+  if isint then (do _ <- fmt_d_int n; Ok tt) else (do _ <- as_float n; Ok tt).
 
 Section WithOracles.
   Variable pyeval : str -> option evr.
